@@ -456,7 +456,7 @@ def make_moveaxis(rng, tier):
 
 # ----------------------------------------------------------------------------------------- driver
 def cases(rng, tier):
-    n = 14 if tier == 'quick' else 140
+    n = 24 if tier == 'quick' else 240
     out = []
     for i in range(n):
         for name in SRC_FUNCS:
